@@ -59,3 +59,14 @@ chk("C22", MC,
     BASE_NOTE + " Reading of 'pass' used for the registered-group bound: handed to user space (XDP_PASS); the stricter "
     "reading is reported as informational only (DESIGN.md C22).",
     "SMT symbolic execution + bounded model checking of the emitted dispatcher (z3 BV)", "A:8/C22")
+
+chk("C21", MC,
+    "Per pass, for ALL frames/maps: the real FastSyncGroup.program + SterilePacket.activate bytecode for 6 group layouts "
+    "(1-3 write, 0-2 read datagrams, FMMU and direct) re-enables exactly the write datagrams, clears their working "
+    "counters and counts one error per differing counter iff output is enabled and the frame is long enough; otherwise "
+    "frame and counters are unchanged; always XDP_TX. The real sterile() output is parsed by an independent frame parser "
+    "(writers NOP, rest identical). Composition with the dispatcher: every dispatcher exit that does not run the group "
+    "changes only index byte/ethertype (real dispatcher bytecode), so together with C22's history BMC no frame returns "
+    "to the bus with enabled writers unless the group program processed it in that pass.",
+    BASE_NOTE + " The dispatcher part runs under the C22 harness workaround on this tree.",
+    "SMT symbolic execution of the emitted group program over a symbolic frame + compositional argument with C22's BMC", "A:8/C21")
